@@ -208,6 +208,13 @@ NONSEEKABLE_FLAVORS = {'bare': NonSeekableSource, 'declared': DeclaredNonSeekabl
 
 # ------------------------------------------------------------------ sinks
 class _SinkBase:
+    write_ret = 'len'  # what write() returns although it has taken ALL the data: 'len' | 'none' | 'half' | 'zero' | 'true'
+
+    def _ret(self, n):
+        # (a compressing / encrypting / record-counting wrapper returns what ITS underlying write returned; old-style file-likes
+        # return None; the value says nothing about how much of the data was taken)
+        return {'len': n, 'none': None, 'half': n // 2, 'zero': 0, 'true': True}[self.write_ret]
+
     def __init__(self, world, label):
         self.w, self.label = world, label
         self.writes = []  # (n, thread, offset, len)
@@ -257,7 +264,7 @@ class SeekableSink(_SinkBase):
                 raise_for(f, d, key, 'after')
         finally:
             self._exit()
-        return len(data)
+        return self._ret(len(data))
 
     def getvalue(self):
         return self._b.getvalue()
@@ -302,7 +309,7 @@ class NonSeekableSink(_SinkBase):
                 raise_for(f, d, key, 'after')
         finally:
             self._exit()
-        return len(data)
+        return self._ret(len(data))
 
     def getvalue(self):
         return b''.join(self.chunks)
